@@ -41,6 +41,10 @@ where
         return Err(());
     }
     let scale = AsPrimitive::<F>::as_(free_weight.as_()) / normalization;
+    if !scale.is_finite() {
+        // `normalization` is so tiny that the scale overflows; we can't quantize this.
+        return Err(());
+    }
 
     let mut cumulative_float = F::zero();
     let mut accumulated_slack = Probability::zero();
